@@ -478,6 +478,8 @@ def decorate(rng, part, profile):
         k = 0
         for main in mains[: rng.choice((1, 1, 2))]:
             cnt = rng.choice((1, 1, 2, 3))
+            if profile == "full" and rng.random() < 0.04:
+                cnt = rng.choice((33, 40, 48))  # a cadenza written in small notes
             gtype = rng.choice(("appoggiatura", "acciaccatura", "grace"))
             prev = None
             seq = []
